@@ -77,6 +77,9 @@ fn run_c07(ctx: &mut Ctx, rep: &mut Report) {
             cycle_len = from - to + 1;
             add_cycle(&mut w, from, to);
         }
+        // further trust anchors with chains at the same boundary: the depth is counted per trust anchor
+        let extra_tals = if len <= 8 { rng.usize(3) } else { 0 };
+        for _ in 0..extra_tals { let l2 = (len as i64 + rng.range(-1, 1)).max(0) as usize; add_chain(&mut w, &mut rng, l2, nobj); }
         let pol = Policy { max_ca_depth: depth, ..Policy::default() };
         let threads = 1 + rng.usize(8);
         let mut env = Env::new(&ctx.scratch.join("env"));
@@ -85,7 +88,7 @@ fn run_c07(ctx: &mut Ctx, rep: &mut Report) {
         let p = b.publish(&w);
         env.serve(&p);
         hooks.take_events();
-        ctx.begin_case(&json!({"case": i, "depth": depth, "len": len, "cycle": cycle_len}));
+        ctx.begin_case(&json!({"case": i, "depth": depth, "len": len, "cycle": cycle_len, "extra_tals": extra_tals}));
         let out = run_engine(&env.config, true, &LocalExceptions::empty());
         rep.eval();
         let replay = json!({"world": w, "max_ca_depth": depth, "threads": threads});
@@ -98,7 +101,7 @@ fn run_c07(ctx: &mut Ctx, rep: &mut Report) {
                 format!("{visits} publication point visits, oracle says {reached} CA nodes are reachable (max depth {depth}, chain {len}, cycle {cycle_len})"), replay.clone());
         }
         judge(&e, &observe(&snap), &b, "C07", rep, replay);
-        rep.class(format!("d{depth}|rel{rel}|cyc{cycle_len}|t{}", threads.min(3)));
+        rep.class(format!("d{depth}|rel{rel}|cyc{cycle_len}|t{}|tals{}", threads.min(3), 1 + extra_tals));
         rep.max("max_pubpoint_visits", visits as u64);
         if rep.samples.len() < 2 { rep.sample(json!({"max_ca_depth": depth, "chain_len": len, "cycle_len": cycle_len, "visits": visits, "vrps": e.vrps.len()})); }
     }
@@ -114,7 +117,7 @@ pub const C08: Check = Check {
            from a rejected CA's prefixes, IPv4 and IPv6), CAs holding the whole address family (both families, or only IPv4 / only IPv6 next to specific blocks of the other), and 1-3 publication points made \
            unusable (missing/invalid/stale manifest, bad CRL, missing file), for each unsafe-vrps policy. Oracle: set of rejected \
            CAs from the model -> their blocks minus whole-family blocks -> under 'reject' served = expected minus intersecting \
-           VRPs, under warn/accept nothing removed. distinct = (policy, #rejected, some VRP overlapped?, slash-zero involved) classes",
+           VRPs, under warn/accept nothing removed; every second 'reject' case is followed by the server's initial (restart) run on the same cache, which must not serve an overlapping VRP either. distinct = (policy, #rejected, some VRP overlapped?, slash-zero involved) classes",
     assumptions: &[],
     shards: |_| 16,
     watchdog: |t| Duration::from_secs(t.pick(600, 3600)),
@@ -198,7 +201,23 @@ fn run_c08(ctx: &mut Ctx, rep: &mut Report) {
             rep.violation(if pol.unsafe_vrps == Filter::Reject { "C08/safe-vrp-filtered" } else { "C08/filter-applied-under-warn-or-accept" },
                 format!("VRP {} does not overlap rejected resources (or the policy is {:?}) but is not served", fmt_vrp(v), pol.unsafe_vrps), replay.clone());
         }
-        judge(&e, &o, &b, "C08", rep, replay);
+        judge(&e, &o, &b, "C08", rep, replay.clone());
+        // A restart: the server's initial run works on what is stored locally. Nothing has changed on the servers, so it
+        // must filter exactly as the regular run did.
+        if pol.unsafe_vrps == Filter::Reject && i % 2 == 0 {
+            let out2 = crate::world::run::run_engine_initial(&env.config, &LocalExceptions::empty());
+            rep.eval();
+            match out2.snapshot {
+                None => rep.note("initial run failed; not judged"),
+                Some(s2) => {
+                    let o2 = observe(&s2);
+                    for v in o2.vrps.iter().filter(|v| hits(v)).take(3) {
+                        rep.violation("C08/unsafe-vrp-served/initial-run", format!("VRP {} overlaps the resources of a rejected CA but is served by the initial (restart) run under unsafe-vrps=reject", fmt_vrp(v)), replay.clone());
+                    }
+                    rep.count("initial_runs_checked", 1);
+                }
+            }
+        }
         let overlapped = all.iter().any(|v| hits(v));
         // relation of overlapping VRPs to the rejected block: nested/equal vs covering
         let covering = all.iter().filter(|v| hits(v)).any(|v| if v.0 { v.2 < 16 } else { v.2 < 48 });
